@@ -83,6 +83,7 @@ package util
 //@ func (ImportNames).LookupPath(i, pkgName) (path, ok)
 //@   ensures {C13,C06} ok ==> has(i, path) && i[path] == pkgName
 //@   ensures !ok ==> path == ""
+//@   loop 1 invariant (ok ==> has(i, path) && i[path] == pkgName) && (!ok ==> path == "")
 
 // ---- doc comments and comment surgery (C17, C11, C09) ---------------------------------------------------------------
 
